@@ -29,6 +29,8 @@ THEOREMS = [
     "Aio.C13.cli_close_wait_is_timed",
     "Aio.C13.heartbeat_rearmed_after_coincidence",
     "Aio.C13.silent_peer_after_coincidence_is_detected",
+    "Aio.C13.server_close_deadline_not_restarted",
+    "Aio.C13.closing_state_cancels_heartbeat",
 ]
 RULE = ("One scenario = a session configuration (server|client, autoclose, autoping, heartbeat in {none,2,8,11 s}, "
         "receive timeout in {none,0.75,3 s}, close timeout in {0.5,1.5,10 s}, writer limit in {1,20,65536} / client default) "
@@ -42,7 +44,10 @@ RULE = ("One scenario = a session configuration (server|client, autoclose, autop
         "count, clock, task outcomes) is compared with the Lean model's; the direct oracle judges the wire, the close() "
         "duration, parked tasks at quiescence, transport state, the close code and dead-peer detection (heartbeat configured, peer "
         "silent with the connection open: PING by t+h, session closed 1006 by t+h+h/2, each rounded up <= 1 s) on the real objects alone; "
-        "(d) the heartbeat timer firing at the instant a peer frame is processed (frame first), both sides. A case is "
+        "(d) the heartbeat timer firing at the instant a peer frame is processed (frame first), both sides; (e) peer CLOSE received, "
+        "autoclose on/off x heartbeat 2/8 s, application waits > 1.5 x heartbeat before close(), peer silent: no PING after the peer's CLOSE, "
+        "clean end (peer's code, one CLOSE frame, no exception); (f) peer that keeps sending TEXT/PING/PONG every (timeout-125 ms) for "
+        "six rounds after our CLOSE, both sides: close() within the close timeout. A case is "
         "non-trivial when the projection changes at least twice; distinct by (configuration, labels).")
 TRUSTED_BASE = [
     "the hand-written model lean/AioModel/C13.lean of web_ws.py / client_ws.py / _websocket/writer.py / WebSocketDataQueue / "
@@ -246,18 +251,25 @@ def oracle(ctx, cfg, labels, trace, a_end, complete, case, a_start=None):
     #    judged only when the transport was never write-paused)
     T = cfg["close_timeout"]
     start = {}
+    start_idx = {}
     for i in range(1, len(P)):
         lab = labels[i - 1]
         if lab[0] == "call" and lab[2] == "close" and P[i - 1]["tasks"][lab[1]] != "p" and P[i]["tasks"][lab[1]] == "p":
             start[lab[1]] = P[i]["now"]
+            start_idx[lab[1]] = i
         for t in list(start):
             st = P[i]["tasks"][t]
             dur = P[i]["now"] - start[t]
             if st != "p":
                 del start[t]
             if dur > T and not paused_ever:
-                restarted = cfg["side"] == "client" and any(l[0] == "peer" and l[1] in ("text", "ping", "pong") for l in labels[:i])
-                ctx.violation("C13/close-exceeds-timeout/" + ("client-timeout-restarts-per-message" if restarted else "other"),
+                # structural: a non-CLOSE peer frame reached the queue while this close() was waiting (the deadline
+                # was re-armed per message).  The client does this on the unchanged tree (known finding F22); the
+                # server has one deadline around its whole loop, so the server signature is a different violation.
+                restarted = any(labels[j - 1][0] == "peer" and labels[j - 1][1] in ("text", "ping", "pong")
+                                and P[j - 1]["tasks"][t] == "p" and P[j - 1]["tc"] == "0"
+                                for j in range(start_idx[t] + 1, i + 1))
+                ctx.violation("C13/close-exceeds-timeout/" + (cfg["side"] + "-timeout-restarts-per-message" if restarted else "other"),
                               case, f"close() of task {t} still running/returned after {dur} ms > close timeout {T} ms")
                 start.pop(t, None)
     if a_end is None or not complete:
@@ -318,6 +330,38 @@ def oracle(ctx, cfg, labels, trace, a_end, complete, case, a_start=None):
                 if ping_i is not None and P[ping_i]["now"] > ping_by and P[closed_i]["now"] > ping_by:
                     ctx.violation("C13/dead-peer-ping-late", case,
                                   f"heartbeat {hbt} ms, peer silent from t={t0}: first PING at t={P[ping_i]['now']} > {ping_by}")
+    # -- once receive() has handed the peer's CLOSE(c) to the application (session closing) and the peer stays
+    #    silent and nothing else goes wrong: no PING may be sent any more (the heartbeat must be off — a PING
+    #    after the peer's CLOSE can never be answered), and when the session ends it ends cleanly: the peer's
+    #    code, exactly one CLOSE frame from us, no exception recorded.
+    k = None
+    pcode = None
+    for i in range(1, a_end + 1):
+        for t in range(3):
+            st = P[i]["tasks"][t]
+            if st.startswith("r:CLOSE") and st[7:].isdigit() and P[i - 1]["tasks"][t] == "p":
+                k, pcode = i, st[7:]
+                break
+        if k is not None:
+            break
+    faults_a = any(l[0] in ("cancel", "drop", "pausew") or (l[0] == "peer" and l[1] == "bad") for l in labels[:a_end])
+    if k is not None and pcode != "0" and not faults_a and not any(l[0] == "peer" for l in labels[k:a_end]) \
+            and P[k - 1]["c"] == "0" and P[k - 1]["tc"] == "0":
+        n_ping = P[k]["frames"].count("P")
+        j = next((j for j in range(k + 1, a_end + 1) if P[j]["frames"].count("P") > n_ping), None)
+        app_ping = any(l[0] == "call" and l[2] == "ping" for l in labels[:a_end])   # ws.ping() by the application itself
+        if j is not None and not app_ping:
+            ctx.violation("C13/peer-close-received/ping-sent-afterwards", case,
+                          f"receive() returned the peer's CLOSE({pcode}) at step {k} (t={P[k]['now']} ms), the peer is silent, yet a PING "
+                          f"was written at t={P[j]['now']} ms: the heartbeat is still running in closing state: {trace[j]}")
+        if A["c"] == "1":
+            n_close = sum(1 for f in A["frames"] if f.startswith("C"))
+            if A["cc"] != pcode or n_close != 1 or A["ex"] != "-":
+                over = any(p["c"] == "1" and p["cc"] == pcode for p in P[k:a_end])
+                ctx.violation("C13/close-code/receive-overwrites-code-of-closed-session" if (over and n_close == 1 and A["ex"] == "-")
+                              else "C13/peer-close-received/not-a-clean-end", case,
+                              f"peer's CLOSE({pcode}) was received and nothing went wrong afterwards, but the session ended with close code "
+                              f"{A['cc']}, {n_close} CLOSE frame(s) sent, exception {A['ex']}: {trace[a_end]}")
     # a close() call ended by CancelledError (at the `_close_wait` await when that future exists)
     close_cancelled = any(
         P[i]["tasks"][t] == "x:cancelled" and P[i - 1]["tasks"][t] == "p" and op_at[i - 1].get(t) == "close"
@@ -523,6 +567,34 @@ def check(ctx):
                 hbs.append((c, [("call", 0, "recv"), ("tick",), ("adv", 1000), frame_lab, ("tick",), ("tick",), ("tick",),
                                 ("tick",), frame_lab, ("tick",), ("tick",), ("call", 0, "recv"), ("tick",)]))
     run_and_judge(ctx, hbs, "heartbeat-coincidence")
+    # the peer's CLOSE arrives, the application takes longer than 1.5 x heartbeat before it calls close(); peer silent
+    slow = []
+    for base in (srv, cli):
+        for hb in (2000, 8000):
+            for ac in (True, False):
+                c = dict(base, heartbeat=hb, autoclose=ac, close_timeout=10000)
+                waits = [("adv", 2500), ("tick",), ("tick",), ("tick",)] * (3 * hb // 2 // 2500 + 2)
+                for code in (1000, 4000):
+                    head = [("call", 0, "recv"), ("tick",), ("peer", "close", code), ("tick",), ("tick",), ("tick",), ("tick",)]
+                    slow.append((c, head + waits + [("call", 1, "close", 1000), ("tick",), ("tick",), ("tick",)]))
+                    slow.append((c, head + waits))
+                    slow.append((c, [("adv", 1000)] + head + waits + [("call", 0, "close", 1001), ("tick",), ("tick",)]))
+    run_and_judge(ctx, slow, "peer-close-then-slow-application")
+    # the peer got our CLOSE but keeps talking (TEXT / PING / PONG) at intervals shorter than the close timeout,
+    # for several timeouts, and never answers with CLOSE
+    chatty = []
+    for base in (srv, cli):
+        for T in (1500, 500):
+            c = dict(base, close_timeout=T)
+            gap = T - 125
+            for kinds in ((("peer", "text", 3),), (("peer", "ping"),), (("peer", "text", 3), ("peer", "pong"))):
+                for nt in (1, 3):
+                    labs = [("call", 0, "close", 1000)] + [("tick",)] * nt
+                    for r in range(6):
+                        labs += [("adv", gap), kinds[r % len(kinds)]] + [("tick",)] * nt
+                    chatty.append((c, labs))
+                    chatty.append((c, [("call", 1, "recv"), ("tick",)] + labs))
+    run_and_judge(ctx, chatty, "chatty-peer-after-close")
     oracle_f9(ctx, F9_CFG, 40000, 2)
     oracle_f9(ctx, dict(F9_CFG, side="client", limit=CLIENT_LIMIT), 40000, 2)
     ctx.case(("f9",), nontrivial=True)
